@@ -362,3 +362,22 @@ func (r *Report) importRules(w *World, run func(*Report), toRule string, fromRul
 	}
 	return n
 }
+
+// importTreeReadOnly adopts, under toRule, the C18 L-2 obligations that the committed
+// tree's readers (the iterators block execution builds on, and read) consult no
+// overlay container; returns how many were adopted.
+func (r *Report) importTreeReadOnly(w *World, toRule string) int {
+	tmp := NewReport(r.Prop, r.Tier)
+	l2(w, tmp)
+	n := 0
+	for _, o := range tmp.Obs {
+		if o.Rule != "L-2" || !strings.Contains(o.Key, "tree-read-only:") {
+			continue
+		}
+		o.Rule = toRule
+		o.Key = toRule + ":" + strings.TrimPrefix(o.Key, "L-2:")
+		r.Obs = append(r.Obs, o)
+		n++
+	}
+	return n
+}
